@@ -1049,6 +1049,132 @@ def inout_value(v):
     return v
 
 
+def tensor_objects(o, acc=None):
+    """{id: Tensor} of every Tensor object reachable from o (tensors of networks, containers)."""
+    qtn = Q()
+    acc = {} if acc is None else acc
+    if isinstance(o, qtn.Tensor):
+        acc[id(o)] = o
+    elif isinstance(o, qtn.TensorNetwork):
+        for t in o.tensor_map.values():
+            acc[id(t)] = t
+    elif isinstance(o, (list, tuple)):
+        for v in o:
+            tensor_objects(v, acc)
+    elif isinstance(o, dict):
+        for v in o.values():
+            tensor_objects(v, acc)
+    return acc
+
+
+def inplace_edits(o):
+    """A battery of (name, thunk) in-place edits of a tensor / network / container of them - everything goes through the
+    public in-place API (never writes into an array: arrays are shared between copies by design)."""
+    qtn = Q()
+    out = []
+    if isinstance(o, (list, tuple)):
+        for v in o:
+            out += inplace_edits(v)
+    elif isinstance(o, dict):
+        for v in o.values():
+            out += inplace_edits(v)
+    elif isinstance(o, qtn.TensorNetwork):
+        out.append(("multiply_each_", lambda: o.multiply_each_(2.0)))
+        out.append(("conj_", lambda: o.conj_()))
+        out.append(("reindex_", lambda: o.reindex_({ix: ix + "~" for ix in list(o.ind_map)})))
+        out.append(("retag_", lambda: o.retag_({t: t + "~" for t in list(o.tag_map)})))
+        out.append(("modify-data", lambda: [t.modify(data=np.asarray(t.data) * 3) for t in o.tensor_map.values()]))
+        out.append(("add_tag", lambda: o.add_tag("EDIT~")))
+    elif isinstance(o, qtn.Tensor):
+        out.append(("modify-apply", lambda: o.modify(apply=lambda d: 2 * d)))
+        out.append(("conj_", lambda: o.conj_()))
+        out.append(("reindex_", lambda: o.reindex_({ix: ix + "~" for ix in o.inds})))
+        out.append(("retag_", lambda: o.retag_({t: t + "~" for t in list(o.tags)})))
+        out.append(("add_tag", lambda: o.add_tag("EDIT~")))
+    return out
+
+
+def independence(first, second, what, info):
+    """In-place edits of `first` must not change the fingerprint of `second` (objects handed back by a non-in-place call
+    and the receiver / arguments of that call are independent objects)."""
+    f0 = fingerprint(second)
+    for nm, thunk in inplace_edits(first):
+        try:
+            with warnings.catch_warnings():
+                warnings.simplefilter("ignore")
+                thunk()
+        except Exception:  # the edit itself is not under test (e.g. a tag clash on an odd result)
+            continue
+        d = fp_diff(f0, fingerprint(second))
+        if d:
+            raise Violation(what, edit=nm, what_changed=d, **info)
+
+
+# plain spellings documented to hand back views of the receiver's / an argument's Tensor objects (read from the docstrings):
+#   (none of the 113 paired names at HEAD; virtual=True style options are only exercised in `alias.plain`)
+DOCUMENTED_VIEW_PAIRS = set()
+
+
+def warm_caches(x):
+    """History dimension: touch the cheap cached-property consumers of a structured network (public API only) so that the
+    method under test starts from a receiver whose lazily built caches (site tags / site set / site inds ...) exist."""
+    if not hasattr(x, "site_tag_id"):
+        return False
+    for fn in (lambda: x.site_tags, lambda: x.site_tags_present, lambda: x.filter_valid_site_tags(x.tags),
+               lambda: [x.has_site(s) for s in x.sites], lambda: x.maybe_convert_coo(next(iter(x.sites))),
+               lambda: x.site_inds, lambda: x.site_inds_present, lambda: x.upper_inds, lambda: x.lower_inds,
+               lambda: x.upper_inds_present, lambda: x.lower_inds_present):
+        try:
+            fn()
+        except Exception:
+            pass
+    return True
+
+
+def probe(o):
+    """Behavioural signature of a structured network: what its site book-keeping answers and how a follow-up gate tags its
+    tensor.  Two label-equal results must give the same answers whatever their call history."""
+    if not hasattr(o, "site_tag_id"):
+        return None
+    out = {}
+
+    def safe(k, fn):
+        try:
+            out[k] = fn()
+        except Exception as e:  # noqa
+            out[k] = "EXC:" + type(e).__name__
+
+    safe("site_tags", lambda: list(o.site_tags))
+    safe("site_tags_present", lambda: list(o.site_tags_present))
+    safe("valid_site_tags", lambda: sorted(o.filter_valid_site_tags(o.tags)))
+    safe("sites_present", lambda: [repr(s) for s in o.gen_sites_present()])
+    safe("has_site", lambda: [bool(o.has_site(s)) for s in o.sites])
+    for attr in ("site_inds", "site_inds_present", "upper_inds", "upper_inds_present", "lower_inds", "lower_inds_present"):
+        if hasattr(type(o), attr):
+            safe(attr, lambda a=attr: list(getattr(o, a)))
+    if hasattr(o, "site_ind") and hasattr(o, "gate"):
+        def gate_tags():
+            for site in o.gen_sites_present():
+                ix = o.site_ind(*site) if isinstance(site, tuple) and ndims(o) > 1 else o.site_ind(site)
+                if ix in o.ind_map:
+                    d = o.ind_size(ix)
+                    with warnings.catch_warnings():
+                        warnings.simplefilter("ignore")
+                        r = o.gate(np.eye(d), site, contract=False, propagate_tags="sites", tags="PROBE~")
+                    return sorted(r["PROBE~"].tags)
+            return None
+        safe("gate_tags", gate_tags)
+    return out
+
+
+def compare_probe(a, b, what, info):
+    if a is None or b is None:
+        return
+    for k in a:
+        if k in b and a[k] != b[k]:
+            raise Violation(what + ":behaviour", probe=k, a=str(a[k])[:100], b=str(b[k])[:100], **info)
+
+
 def same_object_rule(plain, inpl, receiver, info, path="r"):
     """Wherever the plain spelling hands back a tensor/network of the receiver's kind, the in-place spelling must hand
     back the receiver object itself."""
@@ -1087,6 +1213,9 @@ def run_pair(case):
     tol = c1.tol
     fx, fa = fingerprint(x1), arg_fp(c1)
     keep = x1.copy()  # shares arrays with x1
+    warm = bool(case.get("warm"))
+    if warm:
+        info["warm"] = warm_caches(x1)
     r1 = invoke(x1, name, c1, seed)
     if not documented_inplace:
         d = fp_diff(fx, fingerprint(x1))
@@ -1095,11 +1224,19 @@ def run_pair(case):
     d = fp_diff(fa, arg_fp(c1))
     if d:
         raise Violation("argument-mutated", what=d, **info)
+    if not documented_inplace and not isinstance(r1, Raised) and name not in DOCUMENTED_VIEW_PAIRS:
+        got = tensor_objects(r1)
+        if set(got) & set(tensor_objects(x1)):
+            raise Violation("result-aliases-receiver", n=len(set(got) & set(tensor_objects(x1))), **info)
+        if set(got) & set(tensor_objects([c1.args, c1.kwargs])):
+            raise Violation("result-aliases-argument", **info)
 
     # ---- (2) in-place spelling on a copy ----------------------------------------
     x2, c2 = setup(case)
     f2, fa2 = fingerprint(x2), arg_fp(c2)
     x2c = x2.copy()
+    if warm:
+        warm_caches(x2c)  # n.b. a copy starts without caches
     r2 = invoke(x2c, name + "_", c2, seed)
     d = fp_diff(f2, fingerprint(x2))
     if d:
@@ -1126,6 +1263,10 @@ def run_pair(case):
     else:
         d1, d2 = describe(r1), describe(r2)
     err = compare_desc(d1, d2, tol, "spelling", info, cross=True)
+    same_kind = isinstance(r1, qtn.TensorNetwork) and isinstance(r2, qtn.TensorNetwork) and type(r1) is type(r2)
+    p1 = probe(r1) if isinstance(r1, qtn.TensorNetwork) else None
+    if same_kind:
+        compare_probe(p1, probe(r2), "spelling", info)
 
     # ---- (1c) explicit inplace=False on methods whose documented default is in-place ----
     if documented_inplace:
@@ -1147,11 +1288,21 @@ def run_pair(case):
     x3p, moved = permute_obj(x3, prng, view, pmode)
     c3.args, m1 = permute_obj(c3.args, prng, view, pmode)
     c3.kwargs, m2 = permute_obj(c3.kwargs, prng, view, pmode)
+    if warm:
+        warm_caches(x3p)
     r3 = invoke(x3p, name, c3, seed)
     if isinstance(r3, Raised):
         raise Violation("axis-order:raises", exc=r3.kind, at=r3.where, msg=r3.msg, pmode=pmode, **info)
     d3 = describe_gauged(r3, c3.kwargs["gauges"]) if gauged else describe(r3)
     err = max(err, compare_desc(d1, d3, tol, "axis-order", dict(info, pmode=pmode), loose=c1.loose, values=not c1.gauge))
+    if isinstance(r3, qtn.TensorNetwork) and isinstance(r1, qtn.TensorNetwork) and type(r1) is type(r3) and not c1.loose:
+        compare_probe(p1, probe(r3), "axis-order", dict(info, pmode=pmode))
+
+    # ---- (4) result and receiver / arguments of the plain call are independent objects -------------
+    if not documented_inplace and name not in DOCUMENTED_VIEW_PAIRS:
+        independence(x1, r1, "result-follows-receiver", info)           # edit the receiver, watch the result
+        independence(r1, [x1, c1.args, {k: v for k, v in c1.kwargs.items() if k not in c1.inout}],
+                     "receiver-follows-result", info)                     # edit the result, watch receiver + arguments
 
     n_t = 1 if is_tensor(x1) else keep.num_tensors
     nt = bool(moved) and (n_t >= 2 or (is_tensor(x1) and keep.ndim >= 2))
@@ -1520,7 +1671,12 @@ def r_view_as(x, rng):
     if type(x) is qtn.TensorNetwork:
         keys = site_keys(x)
         return Call(qtn.TensorNetworkGen, sites=tuple(range(len(keys))), site_tag_id="T{}")
-    if rng.integers(0, 2):
+    if hasattr(x, "Lx") and hasattr(x, "x_tag_id") and not hasattr(x, "Lz") and rng.integers(0, 2):
+        # the rows as 'sites' of a generic network (several tensors per site): changes sites and site_tag_id
+        return Call(qtn.TensorNetworkGen, sites=tuple(range(x.Lx)), site_tag_id=x.x_tag_id)
+    if rng.integers(0, 2) or ndims(x) > 1:
+        # (a 2D/3D network viewed as TensorNetworkGen with its own multi-placeholder ids is not usable: the generic class
+        #  formats ids with the coordinate tuple as one argument - same limitation as retag_all, see SKIP)
         return Call(qtn.TensorNetwork)
     return Call(qtn.TensorNetworkGen)
 
@@ -1531,6 +1687,10 @@ def r_view_like(x, rng):
     if type(x) is qtn.TensorNetwork:
         like = qtn.TensorNetworkGen.new(sites=tuple(range(len(site_keys(x)))), site_tag_id="T{}")
         return Call(like)
+    if ndims(x) > 1:
+        if hasattr(x, "x_tag_id") and not hasattr(x, "Lz"):
+            return Call(qtn.TensorNetworkGen.new(sites=tuple(range(x.Lx)), site_tag_id=x.x_tag_id))
+        return Call(qtn.TensorNetwork.new())
     like = qtn.TensorNetworkGen.new(sites=tuple(x.sites), site_tag_id=x.site_tag_id)
     return Call(like)
 
@@ -2354,6 +2514,205 @@ def run_gauge_methods(case):
 
 
 # ---------------------------------------------------------------------------
+# plain (non-paired) methods that hand back networks / tensors: non-mutation clause incl. object independence
+# ---------------------------------------------------------------------------
+
+# name -> fn(x, rng) -> (callable(x) -> result, documented_view: bool, arguments for the purity check)
+# documented views (docstrings): select / select_local default ``virtual=True`` ("returns a view of the tensors not a copy"),
+# ``copy(virtual=True)``, ``as_network(virtual=True)`` (default), ``subgraphs(virtual=True)``, ``a | b``.  Everything else in
+# this table promises independent objects.
+PLAIN_RECIPES = {}
+
+
+def precipe(*names):
+    def deco(fn):
+        for n in names:
+            PLAIN_RECIPES[n] = fn
+        return fn
+    return deco
+
+
+def _tagsel(x, rng):
+    keys = site_keys(x)
+    return pick(rng, keys, int(rng.integers(1, max(2, len(keys)))))
+
+
+@precipe("partition")
+def p_partition(x, rng):
+    tags = _tagsel(x, rng)
+    return (lambda tn: tn.partition(tags, which="any")), False, [tags]
+
+
+@precipe("partition_tensors")
+def p_partition_tensors(x, rng):
+    tags = _tagsel(x, rng)
+    return (lambda tn: tn.partition_tensors(tags)), False, [tags]
+
+
+@precipe("select")
+def p_select(x, rng):
+    tags = _tagsel(x, rng)
+    view = bool(rng.integers(0, 2))
+    we = bool(rng.integers(0, 2))
+    return (lambda tn: tn.select(tags, which="any", virtual=view, with_exponent=we)), view, [tags]
+
+
+@precipe("select_local")
+def p_select_local(x, rng):
+    tag = pick(rng, site_keys(x))
+    view = bool(rng.integers(0, 2))
+    return (lambda tn: tn.select_local(tag, max_distance=1, virtual=view)), view, [tag]
+
+
+@precipe("copy")
+def p_copy(x, rng):
+    mode = int(rng.integers(0, 3))
+    if mode == 0:
+        return (lambda tn: tn.copy()), False, []
+    if mode == 1:
+        return (lambda tn: tn.copy(deep=True)), False, []
+    if is_tensor(x):
+        return (lambda tn: tn.copy()), False, []
+    return (lambda tn: tn.copy(virtual=True)), True, []
+
+
+@precipe("H")
+def p_H(x, rng):
+    return (lambda tn: tn.H), False, []
+
+
+@precipe("subgraphs")
+def p_subgraphs(x, rng):
+    view = bool(rng.integers(0, 2))
+    return (lambda tn: tn.subgraphs(virtual=view)), view, []
+
+
+@precipe("as_network")
+def p_as_network(x, rng):
+    view = bool(rng.integers(0, 2))
+    return (lambda tn: tn.as_network(virtual=view)), view, []
+
+
+@precipe("combine")
+def p_combine(x, rng):
+    other = other_like(x, rng)
+    view = bool(rng.integers(0, 2))
+    if is_tensor(x):
+        return (lambda tn: (tn | other) if view else (tn & other)), view, [other]
+    return (lambda tn: tn.combine(other, virtual=view)), view, [other]
+
+
+@precipe("make_norm")
+def p_make_norm(x, rng):
+    return (lambda tn: tn.make_norm()), False, []
+
+
+@precipe("replace_section_with_svd")
+def p_replace_section(x, rng):
+    i = int(rng.integers(1, x.L - 1))
+    return (lambda tn: tn.replace_section_with_svd(i, i + 1 if x.L - i < 2 else i + 2, 1e-14, method="svd")), False, []
+
+
+@precipe("partial_trace_to_mpo")
+def p_ptr_mpo(x, rng):
+    keep = sorted(pick(rng, list(range(x.L)), 2))
+    return (lambda tn: tn.partial_trace_to_mpo(keep)), False, []
+
+
+@precipe("get_cluster")
+def p_get_cluster(x, rng):
+    where = (pick(rng, list(x.sites)),)
+    return (lambda tn: tn.get_cluster(where, max_distance=int(rng.integers(0, 2)))), False, []
+
+
+@precipe("split")
+def p_split(x, rng):
+    inds = sorted(x.inds)
+    if len(inds) < 2:
+        raise Reject("rank 1")
+    left = pick(rng, inds, int(rng.integers(1, len(inds))))
+    get = pick(rng, [None, "tensors"])
+    return (lambda t: t.split(left, cutoff=0.0, get=get)), False, []
+
+
+@precipe("contract_with")
+def p_contract_with(x, rng):
+    other = other_like(x, rng)
+    other.reindex_({sorted(x.inds)[0]: "zz"})
+    return (lambda t: t.contract(other, preserve_tensor=True)), False, [other]
+
+
+PLAIN_CLASSES = {"Tensor": ["copy", "H", "as_network", "combine", "split", "contract_with"],
+                 "TensorNetwork": ["partition", "partition_tensors", "select", "select_local", "copy", "H", "subgraphs", "as_network",
+                                   "combine", "make_norm"],
+                 "TensorNetworkGenVector": ["partition", "select", "copy", "combine", "make_norm", "get_cluster"],
+                 "MatrixProductState": ["partition", "partition_tensors", "select", "copy", "H", "combine", "make_norm",
+                                        "replace_section_with_svd", "partial_trace_to_mpo"],
+                 "PEPS": ["partition", "select", "select_local", "copy", "combine", "make_norm"]}
+
+
+def plain_pairs():
+    out = []
+    for cname, names in PLAIN_CLASSES.items():
+        c = get_class(cname)
+        for n in names:
+            attr = {"contract_with": "contract", "combine": "__and__"}.get(n, n)
+            if hasattr(c, attr):  # reflected: dropped when the method disappears
+                out.append([cname, n])
+    return out
+
+
+def s_alias_plain(tier):
+    from .. import arrays as AR
+
+    pairs = plain_pairs()
+
+    def finish(d):
+        d = dict(d)
+        d["pair"] = pairs[(pairs.index(d["pair"]) + d["seed"] + d["pseed"]) % len(pairs)]
+        return d
+
+    return st.fixed_dictionaries({
+        "seed": AR.seeds, "pseed": st.integers(0, 10 ** 6), "n": st.integers(3, 5), "geom": st.sampled_from(GEOMS),
+        "dtype": st.sampled_from(["float64", "complex128"]), "exp": st.sampled_from([0.0, 0.0, 1.0, -2.0]),
+        "direction": st.sampled_from(["edit-result", "edit-receiver"]), "pair": st.sampled_from(pairs)}).map(finish)
+
+
+def run_alias_plain(case):
+    cname, name = case["pair"]
+    info = {"cls": cname, "name": name}
+    x = build_receiver(dict(case, n=(2 + case["n"] % 3) if cname == "Tensor" else case["n"]))
+    rng = np.random.default_rng([int(case["seed"]), 7])
+    fn, view, args = PLAIN_RECIPES[name](x, rng)
+    info["view"] = view
+    # a documented virtual combination may mangle clashing INNER names of the viewed operand (see ops.network)
+    afp = (lambda a: [loose_fp(v) for v in a]) if view else fingerprint
+    fx, fa = fingerprint(x), afp(args)
+    core.reset_quimb_state(int(case["seed"]) % (2 ** 31))
+    with warnings.catch_warnings():
+        warnings.simplefilter("ignore")
+        r = fn(x)
+    d = fp_diff(fx, fingerprint(x))
+    if d:
+        raise Violation("receiver-mutated", what=d, **info)
+    if fa != afp(args):
+        raise Violation("argument-mutated", what=fp_diff(fa, afp(args)) if not view else "changed", **info)
+    got = tensor_objects(r)
+    shared_x = set(got) & set(tensor_objects(x))
+    shared_a = set(got) & set(tensor_objects(args))
+    if not view:
+        if shared_x:
+            raise Violation("result-aliases-receiver", n=len(shared_x), **info)
+        if shared_a:
+            raise Violation("result-aliases-argument", n=len(shared_a), **info)
+        if case["direction"] == "edit-result":
+            independence(r, [x, args], "receiver-follows-result", info)
+        else:
+            independence(x, r, "result-follows-receiver", info)
+    return {"nt": bool(got), "cls": [f"{SHORT[cname]}.{name}" + (":view" if view else ""), case["direction"]], "err": 0.0}
+
+
+# ---------------------------------------------------------------------------
 # sub-checks: one per (class, alphabetical chunk) so that the class histogram shows per-pair counts
 # ---------------------------------------------------------------------------
 
@@ -2385,6 +2744,7 @@ def make_strategy(cname, letters):
             "n": (st.sampled_from([3, 2, 4, 3, 1, 4]) if cname == "Tensor" else st.integers(lo, hi)), "geom": st.sampled_from(GEOMS), "dtype": st.sampled_from(["float64", "complex128"]),
             "exp": st.sampled_from([0.0, 0.0, 1.0, -2.0]), "view": st.booleans(),
             "pmode": st.sampled_from(PMODES if cname != "Tensor" else ["rebuild"]),
+            "warm": st.booleans() if cname not in ("Tensor", "TensorNetwork") else st.just(False),
             "pair": st.sampled_from(ex).map(lambda n: [cname, n])}).map(finish)
     return strat
 
@@ -2416,6 +2776,11 @@ for _c in CLASS_NAMES:
             examples=(20 * _n, 20 * _n * 13), shards=(1, 4), min_accept=0.5,
             rule=f"{_c} pairs with names starting {_label} ({_n} exercised): purity, copy isolation, spelling equivalence, "
                  "axis-order invariance; nt: >=2 tensors (rank>=2) and a non-identity permutation"))
+SUBCHECKS.append(SubCheck("alias.plain", run_alias_plain, s_alias_plain, examples=(500, 8000), shards=(1, 4),
+                          rule="plain non-paired methods handing back networks/tensors (partition, select, copy, H, subgraphs, combine, "
+                               "make_norm, split, ...): receiver/arguments bit-identical after the call, no Tensor OBJECT shared with "
+                               "the result unless the docstring promises a view (virtual=True), and in-place edits of the result "
+                               "(resp. receiver) leave the receiver+arguments (resp. result) unchanged; nt: result holds tensors"))
 SUBCHECKS.append(SubCheck("gauges.methods", run_gauge_methods, s_gauge_methods, examples=(400, 6000), shards=(1, 4),
                           rule="public non-paired methods that accept gauges= (reflected from signatures): the result (network + updated "
                                "gauges as ONE denoted object, or the returned value) is the same for the layout as built and for a "
